@@ -391,6 +391,8 @@ func checkC10(c *Ctx) {
 		c.Infra(err)
 		return
 	}
+	unrepeated := 0
+	defer func() { c.Cov("differences_not_repeated_on_a_second_run", unrepeated) }()
 	for i, hc := range cases {
 		v, ok := vs[i]
 		if !ok {
@@ -403,6 +405,19 @@ func checkC10(c *Ctx) {
 			continue
 		}
 		if v.OK {
+			c.AddTraces(1)
+			continue
+		}
+		// Histories hold deadlines and timed work: a difference has to show again when the history is run once more (a good
+		// input that ran out of time on an overloaded machine in one of the two sessions does not repeat; a trace left by
+		// a failing input does).
+		w2, wo2, failed2, geq2 := c10Run(hc.inputs, hc.fail)
+		same := failed2 && geq2 && len(w2) == len(wo2)
+		for k := 0; same && k < len(w2); k++ {
+			same = w2[k] == wo2[k]
+		}
+		if same {
+			unrepeated++
 			c.AddTraces(1)
 			continue
 		}
